@@ -119,6 +119,11 @@ Definition deser_ok (real : bool) (b : bytes) (start : N) (eo : option eref) (ou
   (src_pos s' =? pos) &&
   outcome_matches b real E (slice b (N.to_nat start) (off s' - N.to_nat start)) r out.
 
+(** Inputs derived from a base transaction are recorded as edits of it:
+    [spl base p del ins] = base with the [del] bytes at position [p] replaced by [ins]. *)
+Definition spl (base : bytes) (p del : N) (ins : bytes) : bytes :=
+  firstn (N.to_nat p) base ++ ins ++ skipn (N.to_nat (p + del)) base.
+
 Definition big (pre : bytes) (fill n : N) (suf : bytes) : bytes := pre ++ repeat fill (N.to_nat n) ++ suf.
 
 Definition raw_ok (b : bytes) (eo : option eref) (out : outcome) : bool :=
